@@ -35,6 +35,7 @@ def c07(ctx):
     graphs = [dict(name="c07-table", constants=c, trace_constants={"Mechs": '{"x"}'}, driver_args=[lib], maxlen=400,
                    repeat=("MAAUse", 12 if quick else 60))]
     r = pipeline.graphs_replay(ctx, "MC_Mech", "Trace_Mech", "vf.drv_mech", graphs, ["TypeOK"], [], maxlen=400, jobs=15)
+    mech_info(ctx)
     ok = r["okcount"]
     ctx.coverage.update(dict(
         states=r["states"], transitions=r["transitions"], traces_validated_against_impl=r["accepted"],
@@ -52,3 +53,79 @@ def c07(ctx):
              "mechanism definitions); plus the always-authenticate machine (no output before context login)."))
     ctx.assumptions += ["a permitted start may fail for other reasons (single DES is unavailable in this sandbox)",
                         "quick tier: 21 representative mechanisms, 3 configuration kinds; thorough: all 73 x 5"]
+
+
+def mech_info(ctx):
+    """Beyond the listed properties (MechInfo.tla): the capability flags of C_GetMechanismInfo against what the entry points
+    did in the executions of this check.  The trace is a projection of the recorded executions: per mechanism its flags and
+    the operation kinds that started successfully (configuration ALL, every usage attribute true).  Rejections go to the
+    evidence notes."""
+    import glob
+    import json
+    import os
+    from vf import tlc
+    flags, started = {}, {}
+    for path in glob.glob(os.path.join(ctx.scratch, "rp-c07-table*", "c*", "trace.ndjson")):
+        m0 = kind = None
+        allon = False
+        for line in open(path):
+            try:
+                e = json.loads(line)
+            except ValueError:
+                continue
+            n = e.get("e")
+            if n == "MConfigure":
+                m0, kind = e.get("m0"), e.get("kind")
+                if kind == "ALL" and e.get("fl") is not None:
+                    flags[m0] = e["fl"]
+            elif n in ("MUnconfigure", "Reset"):
+                m0 = kind = None
+            elif n == "MMakeKey":
+                allon = e.get("use", [""])[0] == "all" and e.get("al") in ("empty", "has")
+            elif n == "MStart" and kind == "ALL" and allon and e.get("rv") == "OK":
+                started.setdefault(m0, set()).add(e["op"])
+            elif n == "MStartKeyless" and kind == "ALL" and e.get("rv") == "OK":
+                started.setdefault(m0, set()).add(e["ep"])
+    if not flags:
+        return
+    wd = ctx.sub("mechinfo")
+    tr = os.path.join(wd, "trace.ndjson")
+    with open(tr, "w") as f:
+        for m in sorted(flags):
+            f.write(json.dumps(dict(e="Info", m=m, fl=flags[m])) + "\n")
+            for op in sorted(started.get(m, ())):
+                f.write(json.dumps(dict(e="Started", m=m, op=op)) + "\n")
+            f.write(json.dumps(dict(e="End", m=m)) + "\n")
+    lines = open(tr).readlines()
+    bad = []
+    cur = tr
+    for rounds in range(len(flags) + 1):
+        cfg = os.path.join(wd, "mi%d.cfg" % rounds)
+        tlc.write_cfg(cfg, spec="TSpec", constants={}, constraint="TrackMax", postcondition="TraceAccepted")
+        vd = os.path.join(wd, "v%d" % rounds)
+        os.makedirs(vd)
+        n = sum(1 for _ in open(cur))
+        try:
+            v = tlc.validate_trace("MechInfo", cfg, cur, vd, n)
+        except tlc.TLCBroken as e:
+            ctx.notes.append("MechInfo (beyond the listed properties): validation failed: %s" % str(e)[:200])
+            return
+        if v.accepted:
+            break
+        cl = open(cur).readlines()
+        e = json.loads(cl[v.matched])
+        m = e.get("m")
+        bad.append(m)
+        nxt = os.path.join(wd, "rest%d.ndjson" % rounds)
+        with open(nxt, "w") as f:            # drop that mechanism's block, go on with the others
+            f.writelines(x for x in cl if json.loads(x).get("m") != m)
+        cur = nxt
+    for m in bad:
+        st = sorted({"Encrypt": "ENCRYPT", "Decrypt": "DECRYPT", "Sign": "SIGN", "Verify": "VERIFY", "Wrap": "WRAP",
+                     "Unwrap": "UNWRAP", "Derive": "DERIVE", "DigestInit": "DIGEST", "GenerateKey": "GENERATE",
+                     "GenerateKeyPair": "GENERATE_KEY_PAIR"}[o] for o in started.get(m, ()))
+        ctx.notes.append("MechInfo (beyond the listed properties): CKM_%s advertises %s but the operations that started are %s"
+                         % (m, ",".join(flags[m]) or "-", ",".join(st) or "-"))
+    ctx.coverage["beyond_listed_properties"] = dict(
+        module="MechInfo", mechanisms=len(flags), inconsistent=sorted(bad),
+        what="capability flags of C_GetMechanismInfo = the operation kinds that start with the mechanism (both directions)")
